@@ -171,6 +171,12 @@ def bind_ranges(rep, A):
 
 def run(rep):
     prog = rep.prog
+    from .c06 import id_encoding
+    id_encoding(rep)
+    from .c17 import value_encoding
+    value_encoding(rep)
+    from .c15 import wire_group_membership
+    wire_group_membership(rep)
     rep.rule("fs-zkabacus", "every non-response atom of PayProof (wire form, incl. 2x9 digit proofs) is absorbed into the challenge before finish()")
     rep.rule("prover-verifier", "PayProof::new and verify derive the same challenge term for an honest proof")
     rep.rule("statement-binding", "merchant key, range parameters, nonce and context reach the challenge hash; amount and revocation-commitment parameters enter acceptance atoms (pay-exact)")
